@@ -18,6 +18,7 @@ RULE = ('The real RadioDriver -> RadioManager -> _SharedRadio -> Crazyradio stac
         'with/without safelink, status-byte styles and retry limits N in {1..6,100}. Oracles: uplink frames accepted by the peer == packets '
         'for which send_packet returned True (order, no repeats); packets from receive_packet == packets the peer queued; error callback '
         'exactly at the N-th consecutive unacknowledged transmission; safelink bits/needs_resending iff a negotiation reply echoed. '
+        'The negotiation is confirmed at attempt k for every k = 1..11 (enumerated); a step may hand the previous packet object over again. '
         'Non-trivial = a loss while a non-null packet is in flight in that direction.')
 ASSUMPTIONS = ['peer model: alternating-bit in both directions as in the nRF51 ESB firmware, reset by the ff 05 01 service packet',
                'USB level failures (None/exception from the dongle) are outside the three stated outcomes and not generated',
